@@ -94,7 +94,7 @@ func mkLine(lineT types.Type, id string, idx, amb int64) *eval.StructVal {
 	r.F["ambCount"] = eval.K(amb)
 	// a record's SNP count says nothing about its distance to another record (ambiguity tracts mask any number of the
 	// other's SNPs): the harness gives unrelated counts, and what is ranked must be the classifier's distance alone
-	k := (idx*5 + amb*3 + int64(len(id))) % 17
+	k := (idx*5 + amb*3 + int64(id[0])) % 17
 	r.F["snpCount"] = eval.K(k)
 	var snps, pos []eval.Value
 	for i := int64(0); i < k; i++ {
